@@ -26,9 +26,10 @@ def build(tier="quick", seed=0):
     cooling(b)
     viscosity(b)
     melting(b)
+    arrays(b)
     b.assume("exp/log/pow are uninterpreted with the schemas: exp > 0, exp monotone, exp(0) = 1, exp(x) >= 1 + x, pow(x,a) > 0 and monotone in x for a >= 0 (x > 0); exp(log(1/2)) = 1/2 and the listed instances of exp(a+b) = exp(a)exp(b)")
     b.assume("induction over the isotope loop counter: the discharged step obligation (total' = total + term_k) and the init obligation give total = sum_k term_k for every table length")
-    b.assume("array inputs: numpy element-wise arithmetic applies the scalar expression per element")
+    b.assume("array inputs: two-element arrays of independent symbols with numpy object semantics for the functions that take arrays directly (radiogenic, cooling, viscosity laws); the melt laws branch on scalars and receive arrays through np.vectorize (not modelled)")
     b.assume("cooling monotonicity/sign clauses are stated for delta_temp > 2^-52 K (both points); the guard band 0 < delta_temp <= 2^-52 K, where the code substitutes a 1 m boundary layer, is excluded")
     return b
 
@@ -140,6 +141,52 @@ def radiogenics(b):
     fno, ex, po = run_fn(b, FR, "off", dict(time=t, mass=mass), [])
     if po:
         ensure(b, fno, "zero", po, lambda p: sp.Eq(p.value, 0), clause="ensures result == 0")
+
+
+# ---------------------------------------------------------------------------------------------
+def arrays(b):
+    """scalar and array inputs: an array argument gives, element by element, the value of the scalar call (relational postcondition on the real functions)"""
+    t, tref, mass = R("time"), R("ref_time"), R("mass")
+    genv = dict(LOG_HALF=LOG_HALF)
+    H, tauf = R("fixed_heat_production"), R("average_half_life")
+    elementwise(b, FR, "fixed", dict(time=t, mass=mass, fixed_heat_production=H, average_half_life=tauf, ref_time=tref), ["time"], [sp.Gt(tauf, 0)], globals_env=genv)
+    f1, c1, tau1, q1, f2, c2, tau2, q2 = [R(x) for x in ("f_1", "c_1", "tau_1", "q_1", "f_2", "c_2", "tau_2", "q_2")]
+    elementwise(b, FR, "isotope", dict(time=t, mass=mass, iso_massfracs_of_isotope=(f1, f2), iso_element_concentrations=(c1, c2), iso_halflives=(tau1, tau2), iso_heat_production=(q1, q2), ref_time=tref),
+                ["time"], [sp.Gt(tau1, 0), sp.Gt(tau2, 0)], globals_env=genv)
+    names = ["delta_temp", "viscosity", "thermal_conductivity", "thermal_diffusivity", "thermal_expansion", "layer_thickness", "gravity",
+             "density", "convection_alpha", "convection_beta", "critical_rayleigh"]
+    sy = {k: R(k) for k in names}
+    cg = dict(float_eps=FLOAT_EPS, MIN_VISCOSITY=sp.Integer(1), MIN_THICKNESS=sp.Integer(50))
+    pos = [sp.Gt(sy[k], 0) for k in names if k not in ("delta_temp", "convection_beta")] + [sp.Gt(sy["convection_beta"], 0), sp.Gt(sy["delta_temp"], FLOAT_EPS)]
+    elementwise(b, FC, "convection", sy, ["delta_temp", "viscosity"], pos, globals_env=cg)
+    csy = {k: sy[k] for k in ("delta_temp", "thermal_conductivity", "layer_thickness")}
+    elementwise(b, FC, "conduction", csy, ["delta_temp"], [sp.Gt(csy["thermal_conductivity"], 0), sp.Gt(csy["layer_thickness"], 0), sp.Gt(csy["delta_temp"], 0)], globals_env=cg)
+    vg = dict(R=RGAS, float_lognat_max=LMAX)
+    Tm, P = R("temperature"), R("pressure")
+    E, V = R("molar_activation_energy"), R("molar_activation_volume")
+    eta0, Tref = R("reference_viscosity"), R("reference_temperature")
+    base = [sp.Gt(RGAS, 0), sp.Gt(LMAX, 1)]
+    elementwise(b, FV, "reference", dict(temperature=Tm, pressure=P, reference_viscosity=eta0, reference_temperature=Tref, molar_activation_energy=E, molar_activation_volume=V), ["temperature", "pressure"],
+                base + [sp.Gt(Tm, 0), sp.Gt(eta0, 0), sp.Gt(Tref, 0)], globals_env=vg)
+    A, s_, se, gs, ge = [R(x) for x in ("arrhenius_coeff", "stress", "stress_expo", "grain_size", "grain_size_expo")]
+    for extra in (False, True):
+        elementwise(b, FV, "arrhenius", dict(temperature=Tm, pressure=P, arrhenius_coeff=A, additional_temp_dependence=extra, stress=s_, stress_expo=se, grain_size=gs, grain_size_expo=ge,
+                                              molar_activation_energy=E, molar_activation_volume=V), ["temperature", "pressure"], base + [sp.Gt(Tm, 0), sp.Gt(A, 0), sp.Gt(s_, 0), sp.Gt(gs, 0)],
+                    globals_env=vg, clause_id=f"array_is_elementwise[extra={int(extra)}]")
+
+
+    cool = dict(thermal_conductivity=4.0, thermal_diffusivity=1.0e-6, thermal_expansion=3.0e-5, layer_thickness=2.0e6, gravity=9.8, density=3300., convection_alpha=1.0, convection_beta=1. / 3., critical_rayleigh=1100.)
+    b.replayer(f"{FC}::convection::ensures:array_is_elementwise*", make_elementwise_replayer("TidalPy.cooling.cooling_models", "convection", cool, dict(delta_temp=[1.0e-20, 5.0, 1500.0], viscosity=[1.0e22, 1.0e14, 1.0e18])))
+    b.replayer(f"{FC}::conduction::ensures:array_is_elementwise*", make_elementwise_replayer("TidalPy.cooling.cooling_models", "conduction", dict(thermal_conductivity=4.0, layer_thickness=2.0e6), dict(delta_temp=[1.0e-20, 5.0, 1500.0])))
+    b.replayer(f"{FR}::fixed::ensures:array_is_elementwise*", make_elementwise_replayer("TidalPy.radiogenics.radiogenic_models", "fixed", dict(mass=1.0e22, fixed_heat_production=1.0e-11, average_half_life=1250., ref_time=4600.), dict(time=[0.0, 4600.0, 9000.0])))
+    b.replayer(f"{FR}::isotope::ensures:array_is_elementwise*", make_elementwise_replayer("TidalPy.radiogenics.radiogenic_models", "isotope",
+               dict(mass=1.0e22, iso_massfracs_of_isotope=(0.9928, 0.0071), iso_element_concentrations=(2.0e-8, 2.0e-8), iso_halflives=(4470., 704.), iso_heat_production=(9.5e-5, 5.7e-4), ref_time=4600.), dict(time=[0.0, 4600.0, 9000.0])))
+    visc = dict(pressure=1.0e9, reference_viscosity=1.0e21, reference_temperature=1600., molar_activation_energy=3.0e5, molar_activation_volume=1.0e-6)
+    b.replayer(f"{FV}::reference::ensures:array_is_elementwise*", make_elementwise_replayer("TidalPy.rheology.viscosity.viscosity_models", "reference", {k_: v_ for k_, v_ in visc.items() if k_ != "pressure"}, dict(temperature=[40.0, 1200.0, 2500.0], pressure=[0.0, 1.0e9, 1.0e11])))
+    for extra in (False, True):
+        b.replayer(f"{FV}::arrhenius::ensures:array_is_elementwise[extra={int(extra)}]*", make_elementwise_replayer("TidalPy.rheology.viscosity.viscosity_models", "arrhenius",
+                   dict(arrhenius_coeff=1.0e-9, additional_temp_dependence=extra, stress=1.0, stress_expo=1.0, grain_size=1.0, grain_size_expo=1.0, molar_activation_energy=3.0e5, molar_activation_volume=1.0e-6),
+                   dict(temperature=[40.0, 1200.0, 2500.0], pressure=[0.0, 1.0e9, 1.0e11])))
 
 
 # ---------------------------------------------------------------------------------------------
